@@ -123,29 +123,40 @@ Print Assumptions C09_outcome.
 (* ---------- clause 3: nothing is left behind ---------- *)
 (* at every reachable state the three values are functions of where the callers stand.  The counter and the table are
    moved by separate instructions: [counted] = between AddInt32(&queueLen, 1) and the deferred AddInt32(-1), [inside] =
-   between resp.Store and the deferred resp.Delete, [invoked] = between preInvoke and postInvoke *)
+   between resp.Store and the deferred resp.Delete, [invoked] = between preInvoke and postInvoke.  queueLen belongs to the
+   ServantProxy the call was made on ([queueLen s p], [counted_by p] = counted and made on proxy p): several proxies for one
+   object share the endpoint manager (invokeNum) and its adapters (the table), each keeps its own queueLen *)
 Theorem C09_restored : forall c s, reach c s ->
-  queueLen s = cnt counted (calls s) /\ invokeNum s = cnt invoked (calls s) /\
+  (forall p, queueLen s p = cnt (counted_by p) (calls s)) /\ invokeNum s = cnt invoked (calls s) /\
   (forall i, In i (resp s) <-> inside_at (calls s) i) /\ NoDup (resp s).
 Proof. exact CallLifeProofs.restored_counts. Qed.
 Print Assumptions C09_restored.
 
+(* each queueLen has one owner: only the registration / cleanup of a call made on proxy p moves queueLen of p, by +1 / -1 *)
+Theorem C09_counter_owner : forall c s l s', step c s l = Some s' ->
+  forall p, queueLen s' p <> queueLen s p ->
+  exists i k, nth_error (calls s) i = Some k /\ k_px k = p /\
+    ((l = LCount i /\ queueLen s' p = (queueLen s p + 1)%Z) \/ (l = LUncount i /\ queueLen s' p = (queueLen s p - 1)%Z)).
+Proof. exact CallLifeProofs.counter_owner. Qed.
+Print Assumptions C09_counter_owner.
+
 Theorem C09_restored_quiescent : forall c s, reach c s ->
   (forall i k, nth_error (calls s) i = Some k -> k_pc k = Init \/ k_pc k = Returned) ->
-  queueLen s = 0%Z /\ invokeNum s = 0%Z /\ resp s = [].
+  (forall p, queueLen s p = 0%Z) /\ invokeNum s = 0%Z /\ resp s = [].
 Proof. exact CallLifeProofs.restored_quiescent. Qed.
 Print Assumptions C09_restored_quiescent.
 
 Theorem C09_restored_no_call_inside : forall c s, reach c s ->
-  (forall i k, nth_error (calls s) i = Some k -> in_doInvoke k = false) -> queueLen s = 0%Z /\ resp s = [].
+  (forall i k, nth_error (calls s) i = Some k -> in_doInvoke k = false) -> (forall p, queueLen s p = 0%Z) /\ resp s = [].
 Proof. exact CallLifeProofs.restored_no_call_inside. Qed.
 Print Assumptions C09_restored_no_call_inside.
 
 Theorem C09_restored_per_call : forall c s1 s2 i k1 k2, reach c s1 -> reach c s2 ->
   length (calls s1) = length (calls s2) ->
   (forall j a b, j <> i -> nth_error (calls s1) j = Some a -> nth_error (calls s2) j = Some b -> k_pc a = k_pc b) ->
+  (forall j a b, nth_error (calls s1) j = Some a -> nth_error (calls s2) j = Some b -> k_px a = k_px b) ->
   nth_error (calls s1) i = Some k1 -> k_pc k1 = Init -> nth_error (calls s2) i = Some k2 -> k_pc k2 = Returned ->
-  queueLen s1 = queueLen s2 /\ invokeNum s1 = invokeNum s2 /\ (forall j, In j (resp s1) <-> In j (resp s2)).
+  (forall p, queueLen s1 p = queueLen s2 p) /\ invokeNum s1 = invokeNum s2 /\ (forall j, In j (resp s1) <-> In j (resp s2)).
 Proof. exact CallLifeProofs.restored_per_call. Qed.
 Print Assumptions C09_restored_per_call.
 
